@@ -273,7 +273,7 @@ where
 
 	// we're just going to run a selection to get the potential fee,
 	// but this won't be locked
-	let (_coins, _total, _amount, fee) = selection::select_coins_and_fee(
+	let (_coins, _total, amount, fee) = selection::select_coins_and_fee(
 		wallet,
 		init_tx_args.amount,
 		init_tx_args.amount_includes_fee.unwrap_or(false),
@@ -284,6 +284,8 @@ where
 		init_tx_args.selection_strategy_is_use_all,
 		&parent_key_id,
 	)?;
+	// with amount_includes_fee the recipient amount is the requested amount less the fee
+	slate.amount = amount;
 	slate.fee_fields = FeeFields::new(0, fee)?;
 
 	let keychain = wallet.keychain(keychain_mask)?;
